@@ -88,6 +88,8 @@ type Driver struct {
 // Finish books the time this worker spent in the part (summed over the workers in the evidence).
 func (d *Driver) Finish() {
 	d.Part.Count("part_worker_milliseconds_total", int(d.spent.Milliseconds()))
+	d.Part.Count("waits_that_hit_the_cap", 0)
+	d.Part.Count("histories_with_transfer", 0)
 	if os.Getenv("VERIF_TIMING") != "" {
 		fmt.Fprintf(os.Stderr, "BLK-PART shard %d/%d: %d cases in %.1fs\n", d.Shard.I, d.Shard.N, d.ncases, d.spent.Seconds())
 	}
@@ -109,7 +111,16 @@ func (d *Driver) Do(c Case) {
 	}
 	p.SetCurrent(d.Scenario, c)
 	t0 := time.Now()
-	r := Run(c, d.Caps)
+	var r *Result
+	func() {
+		defer func() {
+			if e := recover(); e != nil {
+				p.Errorf("harness panic in case %s: %v", c, e)
+				r = &Result{Counters: map[string]int{}}
+			}
+		}()
+		r = Run(c, d.Caps)
+	}()
 	d.spent += time.Since(t0)
 	d.ncases++
 	mine := r.Of(d.Class)
